@@ -111,30 +111,61 @@ theorem smvGo_spec {sdir : List Name} {sname : Name} {nd : N} {ddir' : List Name
         rw [ht', N.get_modAt_append, hgs]
         simp [eraseKid, N.get]
 
+theorem isDir_spec {p : List Name} {t t' : N} {u : Unit} (h : N.atPath p sIsDir t = .ok (u, t')) :
+    ∃ m kids, N.get p t = .ok (.dir m kids) := by
+  rw [N.atPath_eq] at h
+  cases hg : N.get p t with
+  | error e => simp [hg] at h
+  | ok x =>
+    cases x with
+    | file d m => simp [hg, sIsDir] at h
+    | dir m kids => exact ⟨m, kids, rfl⟩
+
+/-- nothing resolves to a directory at or below a file -/
+theorem no_dir_below_file {src ddir : List Name} {t : N} {d : Bytes} {fm m : Meta} {kids : NL}
+    (hs : N.get src t = .ok (.file d fm)) (hd : N.get ddir t = .ok (.dir m kids)) : ¬ src <+: ddir := by
+  rintro ⟨r, rfl⟩
+  rw [N.get_append, hs] at hd
+  cases r <;> simp [N.get] at hd
+
+/-- the two refusals of `Mv` are exactly what keeps the destination out of the source's subtree -/
+theorem guard_of_checks {src ddir : List Name} (x : Name) {t nd : N} {m : Meta} {kids : NL}
+    (hnd : N.get src t = .ok nd) (hd : N.get ddir t = .ok (.dir m kids))
+    (hc : ¬ (nd.kind = .dir ∧ src <+: ddir)) :
+    ¬ (src <+: ddir ++ [x] ∧ src ≠ ddir ++ [x]) := by
+  rintro ⟨hp, hne⟩
+  rcases List.prefix_concat_iff.mp hp with h | h
+  · exact hne h
+  · cases nd with
+    | dir _ _ => exact hc ⟨rfl, h⟩
+    | file d fm => exact no_dir_below_file hnd hd h
+
 /-- what a successful move does on the plain tree -/
-theorem smv_spec {src dst : Path} {t t' : N} (h : smv src dst t = .ok ((), t'))
-    (hguard : ¬ ((src.split.1 ++ [src.split.2]) <+: mvTarget src dst t ∧
-      src.split.1 ++ [src.split.2] ≠ mvTarget src dst t)) :
+theorem smv_spec {src dst : Path} {t t' : N} (h : smv src dst t = .ok ((), t')) :
     ∃ nd, N.get (src.split.1 ++ [src.split.2]) t = .ok nd ∧ N.get (mvTarget src dst t) t' = .ok nd ∧
       (src.split.1 ++ [src.split.2] ≠ mvTarget src dst t →
         ∃ e, N.get (src.split.1 ++ [src.split.2]) t' = .error e) := by
   unfold smv at h
-  obtain ⟨_, _, _, h⟩ := thenS_ok h
+  obtain ⟨_, _, hdd0, h⟩ := thenS_ok h
   obtain ⟨_, _, _, h⟩ := thenS_ok h
   obtain ⟨kd, _, hchild, h⟩ := thenS_ok h
   obtain ⟨nd, _, hget, h⟩ := thenS_ok h
   have hnd := get_of_sGet hget
+  obtain ⟨md, kidsd, hddir⟩ := isDir_spec hdd0
   refine ⟨nd, hnd, ?_⟩
   generalize hsd : src.split.1 = sdir at *
   generalize hsn : src.split.2 = sname at *
   generalize hdd : (if dst.trailing then dst.comps else dst.split.1) = ddir at *
-  have hdn : (if dst.trailing then sname else dst.split.2) = (if dst.trailing then sname else dst.split.2) := rfl
   generalize hdn' : (if dst.trailing then sname else dst.split.2) = dname at *
+  by_cases hc : nd.kind = .dir ∧ (sdir ++ [sname]) <+: ddir
+  · simp [hc] at h
+  simp only [hc, if_false] at h
   have hsrc : ∃ v, N.get (sdir ++ [sname]) t = .ok v := ⟨nd, hnd⟩
   have htarget : mvTarget src dst t = match N.get (ddir ++ [dname]) t with
       | .ok (.dir ..) => ddir ++ [dname] ++ [sname]
       | _ => ddir ++ [dname] := by
     simp only [mvTarget, hsd, hsn, hdd, hdn']
+  have hguard1 := guard_of_checks dname hnd hddir hc
   unfold smvTail at h
   cases h5 : N.atPath ddir (sChild dname) t with
   | ok r5 =>
@@ -148,18 +179,25 @@ theorem smv_spec {src dst : Path} {t t' : N} (h : smv src dst t = .ok ((), t'))
       | file _ _ => simp [N.kind] at hkind5
       | dir mv kv =>
         have ht : mvTarget src dst t = ddir ++ [dname] ++ [sname] := by rw [htarget, hbase]
-        rw [ht] at hguard ⊢
-        exact smvGo_spec h (.inr hsrc) hguard
+        rw [ht]
+        by_cases hself : sdir ++ [sname] = ddir ++ [dname]
+        · simp [hself] at h
+        · simp only [hself, if_false] at h
+          refine smvGo_spec h (.inr hsrc) ?_
+          rintro ⟨hp, hne⟩
+          rcases List.prefix_concat_iff.mp hp with h' | h'
+          · exact hne h'
+          · exact hguard1 ⟨h', hself⟩
     | file =>
       simp only [h5] at h
       cases v5 with
       | dir _ _ => simp [N.kind] at hkind5
       | file dv mv =>
         have ht : mvTarget src dst t = ddir ++ [dname] := by rw [htarget, hbase]
-        rw [ht] at hguard ⊢
+        rw [ht]
         have hU := unlink_ok hg5 hk5
         simp only [hU] at h
-        exact smvGo_spec h (src_after_file_unlink hsrc h5 hU) hguard
+        exact smvGo_spec h (src_after_file_unlink hsrc h5 hU) hguard1
   | error e5 =>
     have hbase : ∃ e, N.get (ddir ++ [dname]) t = .error e := by
       cases hb : N.get (ddir ++ [dname]) t with
@@ -170,11 +208,11 @@ theorem smv_spec {src dst : Path} {t t' : N} (h : smv src dst t = .ok ((), t'))
         simp [sChild, hk] at h5
     obtain ⟨eb, heb⟩ := hbase
     have ht : mvTarget src dst t = ddir ++ [dname] := by rw [htarget, heb]
-    rw [ht] at hguard ⊢
+    rw [ht]
     cases e5 with
     | notfound =>
       simp only [h5] at h
-      exact smvGo_spec h (.inr hsrc) hguard
+      exact smvGo_spec h (.inr hsrc) hguard1
     | _ => simp [h5] at h
 
 /-! ### flush -/
